@@ -2633,6 +2633,11 @@ class PGPKey(Armorable, ParentRef, PGPObject):
         :returns: A new :py:obj:`PGPMessage` with the decrypted contents of ``message``.
         """
         if not message.is_encrypted:
+            if message._sessionkeys:
+                # session key packets, but the encrypted data they belong to was removed or replaced: handing back
+                # whatever cleartext packets came with them would pass those off as the decrypted message
+                raise PGPDecryptionError("Session key packets without encrypted data")
+
             warnings.warn("This message is not encrypted", stacklevel=3)
             return message
 
